@@ -39,4 +39,30 @@ CHECKS = {
          "single substitution is decoded and compared with the reference reading (declaration order, exact scalar match, coercion "
          "fallback, None only for None, raise otherwise); every member value must serialize to its own member's encoding.",
     note="trusted base: vmc/ref.py decode_union (reading fixed in DESIGN.md 4.1 from pinned tests); open findings: None fallback (pinned by tests), fixed-tuple member packing lists"),
+ "C07": dict(engine="E1 schema-space", design_ref="6/C07",
+    technique="exhaustive enumeration of dataclass field layouts x inheritance splits x presence vectors against a default/presence model",
+    text="All field layouts up to length 4 (5 in thorough) over 13 field kinds that dataclasses accepts (required, default, factory, kw_only, "
+         "KW_ONLY sentinel, init=False, InitVar, ClassVar, nullable, converted), every base/child split and default override, all presence "
+         "vectors (absent/present/null), through mixin and codec: field == converted input iff present else default; non-constructor "
+         "members never read; factory objects never shared between results; first missing required field named.",
+    note="trusted base: the presence/default model in vmc/checks/c07.py (30 lines); layouts rejected by dataclasses itself are counted, not judged"),
+ "C08": dict(engine="E1 schema-space", design_ref="6/C08",
+    technique="exhaustive enumeration of the serialization-option lattice x instances against the PROJECT model",
+    text="Config {unset,F,T}^3 x Config.dialect vectors x call-dialect vectors x sort_keys x lazy x all 8 code-generation-flag subsets x all keyword "
+         "combinations the flags allow x two nested-class kinds x a 72-instance value grid: to_dict must equal PROJECT(effective options, plain "
+         "output) with exact key order, nested classes projected with their own effective options.",
+    note="trusted base: PROJECT and the precedence resolution in vmc/checks/c08.py; one open finding (keyword default masks call dialect) attributed by an exact deviation model"),
+ "C09": dict(engine="E1 schema-space", design_ref="6/C09",
+    technique="exhaustive enumeration of alias assignments x flags x all subsets of candidate input keys against KEYMODEL",
+    text="All 64 alias-source assignments for a required and a defaulted field x (allow_deserialization_not_by_alias, forbid_extra_keys) x "
+         "class-level discriminator x mixin/codec/via-base entry x all 2^11 subsets of the candidate keys (names, each source's alias, stranger, "
+         "'None', discriminator key): result / MissingField / ExtraKeysError(extra_keys) must equal KEYMODEL exactly.",
+    note="trusted base: KEYMODEL (15 lines) in vmc/checks/c09.py"),
+ "C10": dict(engine="E1 schema-space", design_ref="6/C10",
+    technique="exhaustive enumeration of customization-level subsets x type-key subsets x strategy forms with marker-carrying registrations",
+    text="All subsets of the six levels x all non-empty key subsets (alias/exact/origin) per key-bearing level x dict / SerializationStrategy / "
+         "pass_through forms x mixin (call dialect), Basic codec (default_dialect) and orjson mixin (format dialect as lowest level) x both "
+         "directions: the observed marker must be the lexicographic minimum under (field options, key specificity, level); pass_through at the "
+         "winner must return the very object.",
+    note="trusted base: the precedence order as stated in the property; markers make the winner directly observable"),
 }
